@@ -1366,7 +1366,8 @@ class QvmCpu:
         s = self.pop(CellType.STRING)
         if n < 0:
             self.trap(TrapCode.INVALID_OPERAND_VALUE)
-        self.push(CellType.STRING, s[-n:])
+        # s[-0:] is the whole string, not the empty one
+        self.push(CellType.STRING, s[-n:] if n > 0 else '')
 
     def _exec_sub(self):
         b = self.pop()
